@@ -478,6 +478,17 @@ pub fn app_system_1(mut cmds: ResMut<AppCmds>, mut commands: Commands) {
 pub fn app_system_2(mut cmds: ResMut<AppCmds>, mut commands: Commands) {
     run_app_cmds(2, &mut cmds, &mut commands);
 }
+// three more positions in the schedule (the scheduler places unordered systems anywhere): a despawn or insert
+// issued between a receiver and the next sync point needs an application system that happens to sit there
+pub fn app_system_3(mut cmds: ResMut<AppCmds>, mut commands: Commands) {
+    run_app_cmds(3, &mut cmds, &mut commands);
+}
+pub fn app_system_4(mut cmds: ResMut<AppCmds>, mut commands: Commands) {
+    run_app_cmds(4, &mut cmds, &mut commands);
+}
+pub fn app_system_5(mut cmds: ResMut<AppCmds>, mut commands: Commands) {
+    run_app_cmds(5, &mut cmds, &mut commands);
+}
 
 const ASSET_BASE: u128 = 0xA55E7_0000_0000_0000;
 fn asset_uuid(a: u64) -> Uuid {
@@ -583,7 +594,7 @@ fn new_app(host: bool, mt: bool) -> App {
     app.init_resource::<Events<bevy_renet::renet::ServerEvent>>();
     app.add_systems(PreUpdate, log_server_events.after(bevy_renet::RenetReceive));
     app.init_resource::<AppCmds>();
-    app.add_systems(Update, (app_system_0, app_system_1, app_system_2));
+    app.add_systems(Update, (app_system_0, app_system_1, app_system_2, app_system_3, app_system_4, app_system_5));
     if !mt {
         app.edit_schedule(Update, |s| {
             s.set_executor_kind(ExecutorKind::SingleThreaded);
